@@ -386,7 +386,13 @@ Section Step.
         | Member j, TMsg m =>
           match nth j (o_oneofs ob) None with
           | Some (f', EPtr q) =>
-            if Nat.eqb f' f then (h, PMsg m q)
+            if Nat.eqb f' f then
+              match q with
+              | Some _ => (h, PMsg m q)
+              | None =>                                       (* the wrapper holds a nil message: allocated in place *)
+                let (h1, q') := halloc h (HObj (new_obj sch m)) in
+                (hset h1 id (HObj (set_oneof ob j (Some (f, EPtr (Some q'))))), PMsg m (Some q'))
+              end
             else let (h1, q') := halloc h (HObj (new_obj sch m)) in
                  (hset h1 id (HObj (set_oneof ob j (Some (f, EPtr (Some q'))))), PMsg m (Some q'))
           | _ => let (h1, q') := halloc h (HObj (new_obj sch m)) in
